@@ -145,7 +145,16 @@ func (bq *binaryQuantizer) Delete(ids ...uint64) error {
 func (bq *binaryQuantizer) Fit() error {
 	// Have we already fitted the quantizer or are there enough points to fit it? The short-circuiting
 	// here is important to avoid unnecessary work of counting the items.
-	if bq.threshold != nil || bq.items.Count() < bq.params.TriggerThreshold {
+	if bq.threshold != nil {
+		return nil
+	}
+	// A failure to count must fail the fit: answering "not enough points yet"
+	// would let the write go through although a storage operation failed.
+	itemCount, countErr := bq.items.CountOrError()
+	if countErr != nil {
+		return countErr
+	}
+	if itemCount < bq.params.TriggerThreshold {
 		return nil
 	}
 	// ---------------------------
